@@ -1417,6 +1417,11 @@ CompleteSetupSystem :: CompleteSetupSystem(bool muscleSingleThreadOnly)
    , _initialMemoryUsage(_activeCSS ? _activeCSS->_initialMemoryUsage : (size_t) GetProcessMemoryUsage())
 {
    _activeCSS = this; // push us onto the CSS-stack
+
+   // Make sure the Socket pool gets constructed (and registered, under the global lock) now, rather than inside the
+   // first call to GetConstSocketRefFromPool(), which might be made while some other Mutex is held (eg by a ThreadPool
+   // starting its first thread), in the opposite order to GlobalFlushAllCachedObjects()
+   (void) GetConstSocketRefFromPool(-1);
 }
 
 CompleteSetupSystem :: ~CompleteSetupSystem()
